@@ -215,7 +215,7 @@ case = json.loads(%(case)r)
 here = os.environ.get("PYTHONPATH", "").split(os.pathsep)
 script = [os.path.join(p, "corr", "C03_impl.py") for p in here if os.path.exists(os.path.join(p, "corr", "C03_impl.py"))][0]
 p = subprocess.run([sys.executable, script], input=json.dumps({"cases": [case]}), capture_output=True, text=True)
-res = json.loads(p.stdout)["results"][0]
+res = json.loads(p.stdout[p.stdout.rindex("@@JSON@@") + 8:].split("\n", 1)[0])["results"][0]
 if res.get("error"):
     print("implementation raised:", res["error"]); sys.exit(1)
 pf = res["prop_fail"]
@@ -235,6 +235,15 @@ def shrink_case(case, upto_op):
     c = json.loads(json.dumps(case))
     c["ops"] = c["ops"][: upto_op + 1]
     return c
+
+
+def split_obl(ctx, name, nbad, ntotal, detail=""):
+    """one obligation per case: the passing cases are discharged, the failing ones are not"""
+    nbad = min(nbad, ntotal)
+    if ntotal - nbad > 0:
+        ctx.obligation(name, True, "%d cases" % (ntotal - nbad), n=ntotal - nbad)
+    if nbad > 0 or ntotal == 0:
+        ctx.obligation(name, nbad == 0 and ntotal > 0, detail, n=max(1, nbad))
 
 
 def run(ctx):
@@ -289,7 +298,7 @@ def correspondence(ctx):
                 ctx.violation("corr:impl-crash", "implementation-side harness failed: " + (err.strip().splitlines()[-1][:300] if err.strip() else "rc=%d" % rc),
                               {"stderr": err[-3000:]}, found_input=False)
                 return
-            for res in json.loads(out)["results"]:
+            for res in json.loads(out[out.rindex("@@JSON@@") + 8:].split("\n", 1)[0])["results"]:
                 results[res["id"]] = res
     ctx.log("implementation ran %d cases" % len(results))
 
@@ -310,7 +319,7 @@ def correspondence(ctx):
         ctx.violation("assembly-not-scatter-add" if pf else "assembly-raises",
                       "case %d (dof_n=%s, complex=%s): %s" % (cid, case["dof_n"], case["complex"], what),
                       {"replay_py": REPLAY % dict(case=json.dumps(small), expected=None), "case": small, "detail": pf}, found_input=True)
-    ctx.obligation("corr:impl-satisfies-dense-predicate", not bad_impl, "; ".join("%d %s" % (c, w) for c, w, _ in bad_impl[:5]), n=max(1, len(results)))
+    split_obl(ctx, "corr:impl-satisfies-dense-predicate", len(bad_impl), len(results), "; ".join("%d %s" % (c, w) for c, w, _ in bad_impl[:5]))
 
     # ---- model (vm_compute) ----
     per_file = 40
@@ -349,8 +358,8 @@ def correspondence(ctx):
             ik = sorted([e["key"][0], 1 if e["key"][1] else 0, e["key"][2]] + e["key"][3] for e in results[i]["cache"])
             if ik != model_keys[i]:
                 keyset_diff += 1
-    ctx.obligation("corr:csr-triples-equal-model", not out_bad, "cases %s" % out_bad[:8], n=max(1, len(ids)))
-    ctx.obligation("corr:impl-cache-entries-are-fresh-maps", not cache_bad, "cases %s" % cache_bad[:8], n=max(1, len(ids)))
+    split_obl(ctx, "corr:csr-triples-equal-model", len(out_bad), len(ids), "cases %s" % out_bad[:8])
+    split_obl(ctx, "corr:impl-cache-entries-are-fresh-maps", len(cache_bad), len(ids), "cases %s" % cache_bad[:8])
     ctx.cov["cache_keyset_differs_from_model_cases"] = keyset_diff
     unreadable = sum(results[i].get("cache_unreadable", 0) for i in ids)
     ctx.obligation("corr:impl-cache-layout-readable", unreadable == 0, "%d cache entries with an unexpected key/value layout" % unreadable)
@@ -378,7 +387,7 @@ def correspondence(ctx):
         why = check_renumbering(byid[base_id], new, perms, a, b)
         if why:
             ren_bad.append((new["id"], why))
-    ctx.obligation("corr:renumbering-equivariance", not ren_bad, "; ".join("%d %s" % x for x in ren_bad[:3]), n=max(1, len(ren)))
+    split_obl(ctx, "corr:renumbering-equivariance", len(ren_bad), len(ren), "; ".join("%d %s" % x for x in ren_bad[:3]))
     for cid, why in ren_bad[:2]:
         ctx.violation("renumbering", "case %d: %s" % (cid, why), {"case": byid[cid], "replay_py": REPLAY % dict(case=json.dumps(byid[cid]), expected=None)}, found_input=True)
 
